@@ -3595,7 +3595,8 @@ def cli_main():
     if hex_offset is not None:
         outputs.append(args.output + '.hex')
     for path in outputs:
-        if os.path.isdir(path) or not os.path.isdir(os.path.dirname(os.path.abspath(path))):
+        # (a path that ends in a separator names a directory, whether or not it exists yet)
+        if os.path.isdir(path) or not os.path.basename(path) or not os.path.isdir(os.path.dirname(os.path.abspath(path))):
             raise SystemExit('cannot write output file: {}'.format(path))
 
     if args.labels:
